@@ -176,6 +176,9 @@ func goValue(d string) any {
 	panic("goValue: unknown type " + t)
 }
 
+// nilSchema as Op.Def stands for a nil *spec.Schema.
+const nilSchema = "<nil schema>"
+
 func resultOutcome(res *validate.Result) hx.Outcome {
 	if res == nil {
 		return hx.Outcome{Valid: true, Warnings: []string{"<nil result>"}}
@@ -193,6 +196,10 @@ func (o Op) Run() (out hx.Outcome) {
 	}()
 	switch o.Kind {
 	case "against":
+		if o.Def == nilSchema {
+			// the degenerate call: no schema at all (accepts everything, must leave nothing behind)
+			return againstNoReset(nil, goValueOrJSON(o.Val), o.registry(), o.options()...)
+		}
 		sch, err := parseSpecSchema(o.Def)
 		if err != nil {
 			return hx.Outcome{Panic: "bad schema: " + err.Error()}
@@ -200,6 +207,9 @@ func (o Op) Run() (out hx.Outcome) {
 		return againstNoReset(sch, goValueOrJSON(o.Val), o.registry(), o.options()...)
 	case "recyc", "plain":
 		sch, err := parseSpecSchema(o.Def)
+		if o.Def == nilSchema {
+			sch, err = nil, nil
+		}
 		if err != nil {
 			return hx.Outcome{Panic: "bad schema: " + err.Error()}
 		}
